@@ -1,6 +1,8 @@
 package props
 
 import (
+	"strings"
+
 	nfttransfer "github.com/bianjieai/tibc-go/modules/tibc/apps/nft_transfer/types"
 	packettypes "github.com/bianjieai/tibc-go/modules/tibc/core/04-packet/types"
 
@@ -133,6 +135,24 @@ func runC04(c *core.Ctx, crashes bool) {
 	}
 	nftHooks(c, e, m)
 	classes := adversarialClasses(w)
+	// plus look-alikes composed per run from a small grammar: 1-5 '/'-separated segments, the
+	// first one nft-ish, chain names and victim class names in the other positions
+	firsts := []string{"nft", "nftx", "nfta", "nftq", "kitty", "mtx"}
+	segs := []string{"kitty", "doggy", "zz", "nft", "a"}
+	for _, n := range w.Nodes {
+		segs = append(segs, n.Name, n.Name)
+	}
+	for k := 0; k < 6; k++ {
+		nseg := 1 + ch.Int(5)
+		parts := []string{firsts[ch.Int(len(firsts))]}
+		for j := 1; j < nseg; j++ {
+			parts = append(parts, segs[ch.Int(len(segs))])
+		}
+		if nseg >= 3 && ch.Bool(2, 3) {
+			parts[len(parts)-1] = "kitty" // the class most tokens live in
+		}
+		classes = append(classes, strings.Join(parts, "/"))
+	}
 	ids := []string{"aaa", "bbb", "xx1"}
 	xfers := 0
 
